@@ -594,22 +594,73 @@ def listRegionIDs : Nat → Cache → PD → Bytes → Bytes → List Region →
       if l.contains endKey then (c1, .ok (l :: acc).reverse)
       else listRegionIDs fuel c1 pd l.endKey endKey (l :: acc)
 
+/-- the regions built from an EpochNotMatch answer: `newRegion` gets no leader from the store's error (work peer = first
+    peer), then the work peer is switched to ctx.Store if that store has a peer -/
+def epochNews (store : Nat) (current : List PdRegion) : List Entry :=
+  current.map (fun m => { m.toEntry with leader := if m.peers.contains store then store else m.peers.headD 0 })
+
 /-- `OnRegionEpochNotMatch(ctx{Region: v, Store: store}, currentRegions)` -/
 def onRegionEpochNotMatch (c : Cache) (v : VerID) (store : Nat) (current : List PdRegion) : Cache × Except Err Unit :=
   if current.isEmpty then (c.invalidate v, .ok ())
   else if current.any (fun m => m.r.id == v.id && (decide (m.r.confVer < v.confVer) || decide (m.r.ver < v.ver))) then
     (c, .error .retry)
   else
-    let news := current.map (fun m =>
-      let e := m.toEntry
-      -- newRegion gets no leader from the store's error: work peer = first peer, then switched to ctx.Store if it has a peer
-      { e with leader := if m.peers.contains store then store else m.peers.headD 0 })
-    let needInvalidateOld := !(news.any (fun e => e.r.verID == v))
-    let c1 := if needInvalidateOld then c.invalidate v else c
-    (news.foldl (fun c e => (insertRegionToCache c e).1) c1, .ok ())
+    let c1 := if !((epochNews store current).any (fun e => e.r.verID == v)) then c.invalidate v else c
+    ((epochNews store current).foldl (fun c e => (insertRegionToCache c e).1) c1, .ok ())
 
 /-- `UpdateLeader(regionID, leader{StoreId: store}, _)` with a non-nil leader -/
 def updateLeader (c : Cache) (v : VerID) (store : Nat) : Cache :=
   c.update v (fun e => if e.peers.contains store then { e with leader := store } else { e with valid := false })
+
+/-- `OnSendFail(ctx{Region: v, AccessIdx: work peer}, scheduleReload, err != nil)`: the work peer moves to the next
+    TiKV peer; with scheduleReload the region gets needReloadOnAccess (the store-side effects — store epoch, liveness
+    probe — do not touch the index) -/
+def nextPeer (peers : List Nat) (leader : Nat) : Nat :=
+  match peers.idxOf? leader with
+  | some i => peers.getD ((i + 1) % peers.length) leader
+  | none => leader
+
+def onSendFail (c : Cache) (v : VerID) (scheduleReload : Bool) : Cache :=
+  c.update v (fun e => { e with leader := nextPeer e.peers e.leader, reload := e.reload || scheduleReload })
+
+/-! ## the error-feedback loop of a request (what drives convergence) -/
+
+/-- two regions share a key -/
+def overlaps (a b : Region) : Bool :=
+  (a.endKey.isEmpty || Bytes.lt b.start a.endKey) && (b.endKey.isEmpty || Bytes.lt a.start b.endKey)
+
+/-- how the sender reacts to a region error for the location it used -/
+inductive Feedback
+  | invalidate      -- RegionNotFound & co: InvalidateCachedRegion
+  | needReload      -- OnSendFail with scheduleReload / store failure marks: needReloadOnAccess
+  | epochNotMatch   -- EpochNotMatch carrying the store's current regions that overlap the stale one
+  deriving DecidableEq, Repr
+
+def applyFeedback (c : Cache) (pd : PD) (r : Region) : Feedback → Cache
+  | .invalidate => c.invalidate r.verID
+  | .needReload => c.update r.verID (fun e => { e with reload := true })
+  | .epochNotMatch =>
+    match c.byVerID r.verID with
+    | none => c
+    | some e => (onRegionEpochNotMatch c r.verID e.leader (pd.filter (fun p => overlaps r p.r))).1
+
+/-- one request attempt for `key` while PD (= the stores' truth) is `pd`: locate, send; the store accepts exactly
+    its current region description, anything else is answered by a region error and handled by `fb`.
+    Result: the cache afterwards and whether the request was accepted. -/
+def attempt (c : Cache) (pd : PD) (key : Bytes) (fb : Feedback) : Cache × Bool :=
+  match locateKey c pd key with
+  | (c1, .error _) => (c1, false)
+  | (c1, .ok r) =>
+    match pd.getRegion key with
+    | some p => if p.r = r then (c1, true) else (applyFeedback c1 pd r fb, false)
+    | none => (c1, false)
+
+/-- attempts until accepted, at most `n`; returns the cache and the number of rejected attempts (none = not accepted) -/
+def attempts : Nat → Cache → PD → Bytes → Feedback → Nat → Cache × Option Nat
+  | 0, c, _, _, _, _ => (c, none)
+  | n + 1, c, pd, key, fb, failed =>
+    match attempt c pd key fb with
+    | (c1, true) => (c1, some failed)
+    | (c1, false) => attempts n c1 pd key fb (failed + 1)
 
 end CGV.Region
